@@ -71,10 +71,18 @@ def clsOptRefFun (t : SX) : Bool :=
     | .list [.atom "opt", .list [.atom "ref", .list [.atom "noauth"], u]] => rightEdgeFun u
     | _ => false
 
+/-- `a < (destroy {…})`: the speculative type-argument parse after `<` reads `(destroy {` as a removed
+    restricted type and reports that error instead of falling back to a comparison -/
+def clsLessDestroyDict (t : SX) : Bool :=
+  t.any fun n => match n with
+    | .list [.atom "bin", .atom "<", _, .list [.atom "destroy", .list (.atom "dict" :: _)]] => true
+    | _ => false
+
 def classifySx (t : SX) : String :=
   if clsRefOfRef t then "ref-of-ref-prints-logical-and"
   else if clsComparisonChain t then "comparison-chain-reparsed-as-type-arguments"
   else if clsOptRefFun t then "optional-of-reference-to-function-type"
+  else if clsLessDestroyDict t then "less-than-before-parenthesised-destroy-dictionary"
   else "roundtrip-mismatch"
 
 /-- program-level failures without a failing sub-expression: the JSON diff summary decides -/
